@@ -40,6 +40,7 @@
 #endif
 
 static std::vector<Op> g_ops;
+void hsim_lc_main_phase();      // sim/early.cc
 
 // ---------------------------------------------------------------------------------------------
 // PRNG: everything a run does is derived from one 64-bit seed
@@ -223,6 +224,9 @@ static Plan gen_plan(uint64_t seed, int min_clients)
   // crowd: more live callers than any fixed-size per-thread table is likely to have slots for
   bool crowd = !hot_loop && r.below(1000) < 5;
   if (crowd) { p.clients = 66 + static_cast<int>(r.below(25)); n = 150 + r.below(250); nfocus = 1 + r.below(2); focus_pct = 97; alias_pct = 35; }
+  // churn storm: hundreds of caller threads come and go (a thread-per-task program), few alive at a time
+  bool storm = !crowd && !hot_loop && r.below(1000) < 3;
+  if (storm) { if (n < 300) n = 300 + r.below(300); nfocus = 1 + r.below(2); focus_pct = 97; alias_pct = 35; if (p.clients < 2) p.clients = 2 + static_cast<int>(r.below(3)); }
   std::vector<uint16_t> focus;
   for (size_t i = 0; i < nfocus; ++i)
     {
@@ -293,9 +297,9 @@ static Plan gen_plan(uint64_t seed, int min_clients)
     }
   // thread churn: some runs retire caller threads and start new ones in their place (fresh thread-local state,
   // a growing count of threads the library has ever seen)
-  if (r.chance(15) && !crowd)
+  if ((r.chance(15) || storm) && !crowd)
     {
-    size_t cnt = r.chance(50) ? 1 + r.below(4) : 6 + r.below(14);
+    size_t cnt = storm ? 260 + r.below(340) : r.chance(50) ? 1 + r.below(4) : 6 + r.below(14);
     for (size_t k = 0; k < cnt; ++k) p.respawn.push_back({static_cast<uint32_t>(r.below(n)), static_cast<uint8_t>(r.below(p.clients))});
     std::sort(p.respawn.begin(), p.respawn.end());
     }
@@ -311,7 +315,7 @@ static Plan gen_plan(uint64_t seed, int min_clients)
 static const uint8_t SW_START = 255;
 static const uint32_t SW_AT_END = 0xffffffffu;
 struct Switch { uint8_t from; uint32_t idx; uint8_t to; };   // from = SW_START: who runs first; idx = SW_AT_END: when from's call returns
-struct Segment { std::vector<int> items; std::vector<Switch> script; unsigned den; int budget; std::vector<uint8_t> respawn; std::vector<uint64_t> focus; };
+struct Segment { std::vector<int> items; std::vector<Switch> script; unsigned den; int budget; std::vector<uint8_t> respawn; std::vector<uint64_t> focus; char phase = 'm'; };   // phase: e = before the library's initialisers, m = main, l = after its destructors
 struct Schedule { int clients; std::vector<Item> items; std::vector<Segment> segs; bool log_access = false; int clock_policy = 0; uint64_t clock_seed = 0; };
 
 using Respawns = std::vector<std::pair<uint32_t, uint8_t>>;      // (before the segment that holds item #first, restart client #second)
@@ -741,6 +745,67 @@ static Outcome run_schedule(const Schedule & sc, bool scripted, uint64_t sched_s
   return o;
   }
 
+// life-cycle probe (DESIGN 9.7): re-execute this binary; sim/early.cc makes the early and late calls, main() the rest
+static uint64_t g_lc_probes = 0, g_lc_early = 0, g_lc_late = 0;
+static bool is_lifecycle(const Schedule & sc) { for (const Segment & g : sc.segs) if (g.phase != 'm') return true; return false; }
+static Outcome run_lifecycle(const Schedule & sc)
+  {
+  Outcome o; o.res.assign(sc.items.size(), Res{255, 0, 0}); o.complete = false;
+  std::string plan; std::vector<int> order_e, order_m, order_l;
+  for (const Segment & g : sc.segs)
+    for (int k : g.items)
+      {
+      const Item & it = sc.items[k];
+      char buf[96]; snprintf(buf, sizeof buf, "%c,%u,%llx,%llx;", g.phase, static_cast<unsigned>(it.op), static_cast<unsigned long long>(it.a), static_cast<unsigned long long>(it.b));
+      plan += buf;
+      (g.phase == 'e' ? order_e : g.phase == 'l' ? order_l : order_m).push_back(k);
+      }
+  int pf[2];
+  if (pipe(pf) != 0) { perror("pipe"); exit(2); }
+  fflush(stdout);
+  pid_t pid = fork();
+  if (pid < 0) { perror("fork"); exit(2); }
+  ++g_forks; ++g_lc_probes; g_lc_early += order_e.size(); g_lc_late += order_l.size();
+  if (pid == 0)
+    {
+    close(pf[0]);
+    char fdbuf[16]; snprintf(fdbuf, sizeof fdbuf, "%d", pf[1]);
+    setenv("HSIM_LIFECYCLE_PLAN", plan.c_str(), 1); setenv("HSIM_LIFECYCLE_FD", fdbuf, 1);
+    char a0[] = "hsim", a1[] = "--lifecycle-child"; char * av[] = {a0, a1, nullptr};
+    execv("/proc/self/exe", av);
+    _exit(9);
+    }
+  close(pf[1]);
+  std::string out; char buf[4096];
+  for (;;)
+    {
+    struct pollfd p{pf[0], POLLIN, 0};
+    int pr = poll(&p, 1, 10000);
+    if (pr == 0) break;
+    if (pr < 0) { if (errno == EINTR) continue; break; }
+    ssize_t g = read(pf[0], buf, sizeof buf);
+    if (g == 0) { o.complete = true; break; }
+    if (g < 0) { if (errno == EINTR) continue; break; }
+    out.append(buf, static_cast<size_t>(g));
+    }
+  close(pf[0]);
+  if (!o.complete) { kill(pid, SIGKILL); ++g_hung; }
+  int st = 0; while (waitpid(pid, &st, 0) < 0 && errno == EINTR) {}
+  size_t pos = 0;
+  while (pos < out.size())
+    {
+    size_t nl = out.find('\n', pos); if (nl == std::string::npos) break;
+    char ph; unsigned ord, status; unsigned long long bits;
+    if (sscanf(out.c_str() + pos, "%c %u %u %llx", &ph, &ord, &status, &bits) == 4)
+      {
+      const std::vector<int> & ord_v = ph == 'e' ? order_e : ph == 'l' ? order_l : order_m;
+      if (ord < ord_v.size()) o.res[ord_v[ord]] = Res{status, 0, bits};
+      }
+    pos = nl + 1;
+    }
+  return o;
+  }
+
 static std::vector<Res> run_serial(const std::vector<Item> & items, const std::vector<int> & order, int clients, const Respawns & rs = Respawns())
   { return run_schedule(serial_schedule(items, order, clients, rs), true, 0).res; }
 
@@ -762,7 +827,7 @@ static bool fails(const Schedule & sc, int victim, const Res & iso, Res * seen)
   {
   if (g_tests >= MINIMISE_BUDGET && !seen) return false;       // out of budget: treat every further candidate as "does not fail"
   ++g_tests;
-  Outcome o = run_schedule(sc, true, 0);
+  Outcome o = is_lifecycle(sc) ? run_lifecycle(sc) : run_schedule(sc, true, 0);
   if (seen) *seen = o.res[victim];
   bool faulted = false;
   for (const Segment & g : sc.segs) for (int k : g.items) if (sc.items[k].fail_alloc > 0) faulted = true;
@@ -867,14 +932,14 @@ static std::string schedule_json(const Schedule & sc, int victim)
     {
     const Segment & g = sc.segs[si];
     // run-length encode: a single-call segment identical to the previous one only bumps its "repeat"
-    if (si > 0 && g.items.size() == 1 && g.respawn.empty() && sc.segs[si - 1].items.size() == 1 && g.items[0] != victim && sc.segs[si - 1].items[0] != victim)
+    if (si > 0 && g.items.size() == 1 && g.respawn.empty() && g.phase == sc.segs[si - 1].phase && sc.segs[si - 1].items.size() == 1 && g.items[0] != victim && sc.segs[si - 1].items[0] != victim)
       {
       const Item & x = sc.items[g.items[0]]; const Item & y = sc.items[sc.segs[si - 1].items[0]];
       if (x.client == y.client && x.op == y.op && x.a == y.a && x.b == y.b && !x.fail_alloc && !y.fail_alloc) { ++pending_repeat; continue; }
       }
     if (!first_seg) { s += ",\"repeat\":" + std::to_string(pending_repeat) + "}"; ++out_segs; }
     pending_repeat = 1; first_seg = false;
-    s += std::string(out_segs ? "," : "") + "{\"respawn_before\":[";
+    s += std::string(out_segs ? "," : "") + "{" + (g.phase != 'm' ? std::string("\"phase\":\"") + (g.phase == 'e' ? "early" : "late") + "\"," : std::string()) + "\"respawn_before\":[";
     for (size_t k = 0; k < g.respawn.size(); ++k) s += std::string(k ? "," : "") + std::to_string(ren[g.respawn[k]]);
     s += "],\"calls\":[";
     for (size_t k = 0; k < g.items.size(); ++k)
@@ -1002,6 +1067,7 @@ static void print_stats(const Stats & st, const char * mode, uint64_t seed0)
                   ",\"conflicting_call_pairs\":" + std::to_string(st.conflict_pairs) + ",\"conflicting_call_pairs_plain_access\":" + std::to_string(st.plain_conflict_pairs) + ",\"plans_with_conflicts\":" + std::to_string(st.plans_with_conflicts) +
                   ",\"directed_executions\":" + std::to_string(st.directed_execs) +
                   ",\"long_runs\":" + std::to_string(st.long_runs) + ",\"very_long_runs\":" + std::to_string(st.very_long_runs) + ",\"max_plan_len\":" + std::to_string(st.max_plan_len) +
+                  ",\"lifecycle_probes\":" + std::to_string(g_lc_probes) + ",\"early_calls\":" + std::to_string(g_lc_early) + ",\"late_calls\":" + std::to_string(g_lc_late) +
                   ",\"clock_queries_inside_library_calls\":" + std::to_string(g_clock_queries_total) + ",\"simulated_ns\":" + std::to_string(g_sim_ns_total) +
                   ",\"allocations_inside_library_calls\":" + std::to_string(g_allocs_total) + ",\"allocation_failures_injected\":" + std::to_string(g_alloc_failures_total) +
                   ",\"plans_with_allocations\":" + std::to_string(st.plans_with_allocations) + ",\"fault_injecting_executions\":" + std::to_string(st.fault_execs) +
@@ -1063,6 +1129,28 @@ static int do_scan_serial(uint64_t seed0, uint64_t count, const char * hashfile,
         }
       }
     if (p.nontrivial && hf) fwrite(&p.hash, 8, 1, hf);
+    if (seed % 25 == 0 && st.findings < max_findings)
+      {   // life-cycle probe: a few of this plan's calls before the library's initialisers, in main, and after its destructors
+      Rng lr(mix64(seed, 0x11fec));
+      Schedule ls; ls.clients = 1;
+      size_t ne = 1 + lr.below(3), nm = 3 + lr.below(6), nl = 1 + lr.below(2);
+      std::vector<int> early;
+      auto add = [&](int src, char ph) { Item it = p.items[src]; it.client = 0; it.fail_alloc = 0; ls.items.push_back(it); Segment g; g.den = 0; g.budget = 0; g.phase = ph; g.items = {static_cast<int>(ls.items.size() - 1)}; ls.segs.push_back(g); };
+      for (size_t q = 0; q < ne; ++q) { int src = static_cast<int>(lr.below(n)); early.push_back(src); add(src, 'e'); }
+      for (size_t q = 0; q < nm; ++q) add(lr.chance(50) ? early[lr.below(early.size())] : static_cast<int>(lr.below(n)), 'm');
+      for (size_t q = 0; q < nl; ++q) add(lr.chance(60) ? early[lr.below(early.size())] : static_cast<int>(lr.below(n)), 'l');
+      Outcome lo = run_lifecycle(ls);
+      if (lo.complete)
+        for (size_t q = 0; q < ls.items.size(); ++q)
+          {
+          if (lo.res[q].status == 255) continue;
+          Res iso = isolated(ls.items[q]); ++st.iso_checks;
+          if (iso.status == 255 || same(lo.res[q], iso)) continue;
+          ++st.disagreements;
+          if (report(seed, "lifecycle", ls, static_cast<int>(q), iso)) ++st.findings; else ++st.unstable;
+          break;
+          }
+      }
     // oracle 1: the two histories must agree item by item; any disagreement is confirmed against isolation
     std::vector<int> suspects;
     for (size_t i = 0; i < n; ++i)
@@ -1303,13 +1391,14 @@ static int do_scan_fine(uint64_t seed0, uint64_t count, const char * hashfile, u
 // stdin:  clients N / seg / call <client> <op> <a hex> <b hex> / sw <from> <at_yield|-1> <to> / victim <seg> <call>
 static int do_exec()
   {
-  char line[512]; Schedule sc; sc.clients = 1; int vseg = -1, vcall = -1; std::vector<uint8_t> pending_respawn; std::vector<int> comp_to_exp;
+  char line[512]; Schedule sc; sc.clients = 1; int vseg = -1, vcall = -1; std::vector<uint8_t> pending_respawn; std::vector<int> comp_to_exp; char pending_phase = 'm';
   while (fgets(line, sizeof line, stdin))
     {
     char name[256]; unsigned c, f, t; long long idx; unsigned long long a, b; int x, y;
     if (sscanf(line, "clients %d", &sc.clients) == 1) continue;
     { int cp; unsigned long long cs; if (sscanf(line, "clock %d %llu", &cp, &cs) == 2) { sc.clock_policy = cp; sc.clock_seed = cs; continue; } }
-    if (strncmp(line, "seg", 3) == 0) { comp_to_exp.push_back(static_cast<int>(sc.segs.size())); Segment g; g.den = 0; g.budget = 0; g.respawn = pending_respawn; pending_respawn.clear(); sc.segs.push_back(g); continue; }
+    if (strncmp(line, "phase ", 6) == 0) { pending_phase = line[6] == 'e' ? 'e' : line[6] == 'l' ? 'l' : 'm'; continue; }
+    if (strncmp(line, "seg", 3) == 0) { comp_to_exp.push_back(static_cast<int>(sc.segs.size())); Segment g; g.phase = pending_phase; pending_phase = 'm'; g.den = 0; g.budget = 0; g.respawn = pending_respawn; pending_respawn.clear(); sc.segs.push_back(g); continue; }
     if (sscanf(line, "respawn %u", &c) == 1) { pending_respawn.push_back(static_cast<uint8_t>(c)); continue; }
     int fa = 0;
     if (sscanf(line, "call %u %255s %llx %llx %d", &c, name, &a, &b, &fa) >= 4)
@@ -1344,7 +1433,7 @@ static int do_exec()
   int victim = -1;
   if (vseg >= 0 && vseg < static_cast<int>(sc.segs.size()) && vcall >= 0 && vcall < static_cast<int>(sc.segs[vseg].items.size())) victim = sc.segs[vseg].items[vcall];
   if (victim < 0) victim = static_cast<int>(sc.items.size()) - 1;
-  Outcome o = run_schedule(sc, true, 0);
+  Outcome o = is_lifecycle(sc) ? run_lifecycle(sc) : run_schedule(sc, true, 0);
   bool faulted = false;
   for (auto & it : sc.items) if (it.fail_alloc > 0) faulted = true;
   Item clean = sc.items[victim]; clean.fail_alloc = 0;
@@ -1378,6 +1467,7 @@ static int do_merge(int argc, char ** argv)
 
 int main(int argc, char ** argv)
   {
+  if (argc >= 2 && std::string(argv[1]) == "--lifecycle-child") { hsim_lc_main_phase(); return 0; }     // sim/early.cc does the rest
   g_ops = hsim_build_catalogue();         // registers function pointers only; calls nothing in the library
   if (argc >= 2 && std::string(argv[1]) == "--list-ops")
     { for (auto & o : g_ops) printf("%s\n", o.name.c_str()); return 0; }
